@@ -8,7 +8,7 @@ use yasna::Tag;
 #[cfg(feature = "pem")]
 use crate::ENCODE_CONFIG;
 use crate::{
-	dt_to_generalized, dt_to_utc, oid, write_distinguished_name, write_dt_utc_or_generalized,
+	check_ia5, dt_to_generalized, dt_to_utc, oid, write_distinguished_name, write_dt_utc_or_generalized,
 	write_x509_authority_key_identifier, write_x509_extension, Certificate, Error, Issuer,
 	KeyIdMethod, KeyPair, KeyUsagePurpose, SerialNumber,
 };
@@ -207,6 +207,11 @@ impl CertificateRevocationListParams {
 
 		if !issuer.key_usages.is_empty() && !issuer.key_usages.contains(&KeyUsagePurpose::CrlSign) {
 			return Err(Error::IssuerNotCrlSigner);
+		}
+
+		if let Some(issuing_distribution_point) = &self.issuing_distribution_point {
+			let uris = &issuing_distribution_point.distribution_point.uris;
+			uris.iter().try_for_each(|uri| check_ia5(uri))?;
 		}
 
 		Ok(CertificateRevocationList {
